@@ -4,14 +4,17 @@ import (
 	"bytes"
 	"encoding/csv"
 	"encoding/json"
+	"errors"
 	"fmt"
 	"io"
+	"io/fs"
 	"net/http"
 	"os"
 	"path/filepath"
 	"reflect"
 	"strconv"
 	"strings"
+	"syscall"
 	"time"
 
 	"verifharness/core"
@@ -317,6 +320,90 @@ func jsonTokenUnit(c *core.Ctx, first int, maxLen int) {
 	c.Nontrivial += nontriv
 }
 
+// failAfter delivers the first n bytes of data and then fails with err (a connection reset, a disk error).
+type failAfter struct {
+	data []byte
+	n    int
+	err  error
+}
+
+func (f *failAfter) Read(p []byte) (int, error) {
+	if f.n <= 0 {
+		return 0, f.err
+	}
+	k := copy(p, f.data[:f.n])
+	f.data, f.n = f.data[k:], f.n-k
+	return k, nil
+}
+
+// readerFailureUnit: the reader under a CSV / JSON stream breaks after every possible number of bytes, with every kind
+// of error an io.Reader may return: the rows delivered are a prefix of the rows of the whole text, at least the rows
+// whose text was delivered completely, the stream closes, nothing panics or stays blocked.
+func readerFailureUnit(c *core.Ctx) {
+	text := "a,x\nu,1\n\"v,w\",2\nz,3\n"
+	whole := refCsv[shapeA](text, true)
+	errs := []error{io.ErrUnexpectedEOF, errors.New("connection reset by peer"), &fs.PathError{Op: "read", Path: "x.csv", Err: syscall.EISDIR}, io.ErrClosedPipe}
+	for _, header := range []bool{true, false} {
+		full := whole
+		if !header {
+			full = refCsv[shapeA](text, false)
+		}
+		for k := 0; k <= len(text); k++ {
+			for ei, e := range errs {
+				var got []*shapeA
+				res := mc.Run(func() {
+					cs, _ := helper.NewCsv[shapeA](header)
+					cs.Logger = quietLogger
+					got = drain(cs.ReadFromReader(&failAfter{data: []byte(text), n: k, err: e}))
+				}, mc.Options{})
+				c.Executions++
+				c.States++
+				c.Evaluations++
+				c.Transitions += int64(res.Events)
+				least := refCsv[shapeA](text[:strings.LastIndex(text[:k], "\n")+1], header)
+				info := map[string]any{"text": text, "bytes_before_failure": k, "error": e.Error(), "header": header}
+				switch {
+				case len(res.Panics) > 0:
+					c.Fail("", fmt.Sprintf("CSV reader (header=%v) panics when the underlying reader fails with %q after %d bytes: %s", header, e, k, res.Panics[0].Value), info)
+				case res.Deadlock:
+					c.Fail("", fmt.Sprintf("CSV reader (header=%v) hangs or leaks a goroutine when the underlying reader fails with %q after %d bytes (%s)", header, e, k, blockedDesc(res)), info)
+				case len(got) > len(full) || !rowsEq(got, full[:len(got)]):
+					c.Fail("", fmt.Sprintf("CSV reader (header=%v), reader failing after %d bytes: delivered %s, not a prefix of the rows of the text %s", header, k, descRows(got), descRows(full)), info)
+				case len(got) < len(least):
+					c.Fail("", fmt.Sprintf("CSV reader (header=%v), reader failing after %d bytes: delivered %s although the rows %s had arrived completely", header, k, descRows(got), descRows(least)), info)
+				default:
+					c.Nontrivial++
+				}
+				if k == 9 && ei == 0 {
+					c.Sample(info)
+				}
+			}
+		}
+	}
+	jtext := `[{"S":"u","N":1},{"S":"v","N":2},{"S":"w","N":3}]`
+	jwhole := refJSON[shapeA](jtext)
+	for k := 0; k <= len(jtext); k++ {
+		for _, e := range errs {
+			var got []shapeA
+			res := mc.Run(func() {
+				got = drain(helper.JSONToChanWithLogger[shapeA](&failAfter{data: []byte(jtext), n: k, err: e}, quietLogger))
+			}, mc.Options{})
+			c.Executions++
+			c.States++
+			c.Evaluations++
+			info := map[string]any{"text": jtext, "bytes_before_failure": k, "error": e.Error()}
+			switch {
+			case len(res.Panics) > 0 || res.Deadlock:
+				c.Fail("", fmt.Sprintf("JSON reader panics or hangs when the underlying reader fails with %q after %d bytes", e, k), info)
+			case len(got) > len(jwhole) || fmt.Sprint(got) != fmt.Sprint(jwhole[:len(got)]):
+				c.Fail("", fmt.Sprintf("JSON reader, reader failing after %d bytes: delivered %v, not a prefix of %v", k, got, jwhole), info)
+			default:
+				c.Nontrivial++
+			}
+		}
+	}
+}
+
 func filesUnit(c *core.Ctx) {
 	dir := mustTempDir("c19")
 	defer os.RemoveAll(dir)
@@ -328,13 +415,14 @@ func filesUnit(c *core.Ctx) {
 		{"directory instead of file", func() string { p := filepath.Join(dir, "d.csv"); os.Mkdir(p, 0o700); return p }},
 		{"unreadable file", func() string { p := filepath.Join(dir, "u.csv"); os.WriteFile(p, []byte("Date\n"), 0o000); return p }},
 	}
-	for _, cs := range cases {
+	for ci, cs := range append(cases, cases...) {
+		header := ci < len(cases) // with and without a header row: the first read of the file happens in different places
 		p := cs.setup()
 		var err error
 		var rows []*asset.Snapshot
 		res := mc.Run(func() {
 			var ch <-chan *asset.Snapshot
-			ch, err = helper.ReadFromCsvFile[asset.Snapshot](p, true)
+			ch, err = helper.ReadFromCsvFile[asset.Snapshot](p, header)
 			if err == nil {
 				rows = drain(ch)
 			}
@@ -392,6 +480,7 @@ func init() {
 				us = append(us, core.Unit{Key: fmt.Sprintf("json-%d", f), Cost: 8, Run: func(c *core.Ctx) { jsonTokenUnit(c, f, jl) }})
 			}
 			us = append(us, core.Unit{Key: "files", Cost: 1, Run: filesUnit})
+			us = append(us, core.Unit{Key: "reader-failures", Cost: 2, Run: readerFailureUnit})
 			return us
 		},
 	})
